@@ -14,6 +14,7 @@ import QV.Proofs.WriterSession
 import QV.Proofs.NameDecode
 import QV.Proofs.NameRoundTrip
 import QV.Proofs.FinishTsigOwner
+import QV.Proofs.WriterSegment
 
 namespace QV.C13
 open QV QV.Writer QV.ServerSafety
@@ -205,6 +206,32 @@ theorem C13_srv_and_ch_a_uncompressible :
 theorem C13_unknown_types_verbatim (cls ty : Nat)
     (h : ∀ a ∈ Gen.rdataComponentsArms, a.1.contains ty = false) : componentTypes cls ty = some [] :=
   componentTypes_unknown cls ty h
+
+/-! ## the audit of the independent decoder
+
+  `C13_decoder_pointer_audit_partial`: C13 in the vocabulary of the *specification's own decoder*,
+  not of the writer's pointer log. For every session of typed calls without `clear_rrs` (all
+  compression modes and mode changes, templates, EDNS, TSIG; limits of at most 65535): the message
+  `finish` returns decodes, and `Spec.Message.auditPointers` — run on the name occurrences the
+  decoder finds, with the mode each item was written in — returns `ok`: every pointer points
+  strictly backwards, to at most 0x3fff, to the first octet of a label of a name that occurs
+  earlier in the message; none inside RDATA that must not be compressed (RFC 3597 §4) and none in
+  an item written in `Disabled` mode. (`QV.Proofs.WriterAudit`; restriction `_partial`: the
+  message finished at the end of a session that contains `clear_rrs` is covered by
+  `QV.C12.C12_full_holds`, where the audit is one clause of `checkSession`, not restated here.) -/
+theorem C13_decoder_pointer_audit_partial (macFn : Tsig → List UInt8 → List UInt8) (hmac : MacLenOK macFn)
+    (buf : Bytes) (limit : Nat) (s0 : State) (hnew : Writer.new buf limit = .ok s0) (hlim : limit ≤ 65535)
+    (mode : CMode) (ops : List Op) (ht : ∀ op ∈ ops, op.Typed) (hb : ∀ op ∈ ops, ApiBounds op)
+    (hr : Respects { w := { s0 with mode := mode } } ops) (hv : ∀ v, Op.setLimit v ∈ ops → v ≤ 65535)
+    (hno : ∀ op ∈ ops, op ≠ .clearRrs ∧ NonEmptySet op) :
+    ∃ (m : Bytes) (mac : Option (List UInt8)) (d : Spec.Message.Decoded) (aF : Spec.Message.AState),
+      finish (run { w := { s0 with mode := mode } } ops).1.w macFn = .ok (m, mac) ∧
+      Spec.Message.specDecodeMsg m = some d ∧
+      aF.mode = Driver.toSpecMode (run { w := { s0 with mode := mode } } ops).1.w.mode ∧
+      Spec.Message.auditPointers d aF.itemModes.reverse aF.mode = .ok () := by
+  obtain ⟨m, mac, d, aF, hf, hd, _, _, _, _, _, hmode, haud, _⟩ :=
+    segment_from_new macFn hmac buf limit s0 hnew hlim mode ops ht hb hr hv hno none
+  exact ⟨m, mac, d, aF, hf, hd, hmode, haud⟩
 
 example : componentTypes 1 65280 = some [] := by decide
 example : componentTypes 1 2 = some [.compressibleName] := by decide
